@@ -181,7 +181,51 @@ def split_top(s):
     return parts
 
 
-def gen_languages():
+def parse_multi_item(item):
+    """one element of the `vec![...]` of multi-line comment styles -> dict"""
+    item = item.strip()
+    if re.fullmatch(r"RustRawString::new\(\)\.into\(\)", item):
+        # impl From<RustRawString> for MultiLineComment
+        text = src("src/language/registry.rs")
+        m = re.search(r"impl From<RustRawString> for MultiLineComment.*?start:\s*\"((?:[^\"\\]|\\.)*)\"\.to_string\(\),\s*end:\s*\"((?:[^\"\\]|\\.)*)\"\.to_string\(\)", text, flags=re.S)
+        if not m:
+            die("From<RustRawString> placeholder markers not found")
+        return dict(start=unescape(m.group(1)), stop=unescape(m.group(2)), nesting=False, line_start=False, kind="rustRawString")
+    if re.fullmatch(r"LuaLongBracket::comment\(\)\.into\(\)", item):
+        text = src("src/language/registry.rs")
+        m = re.search(r"impl From<LuaLongBracket> for MultiLineComment.*?if lua\.is_comment \{\s*\"((?:[^\"\\]|\\.)*)\"\s*\}.*?end:\s*\"((?:[^\"\\]|\\.)*)\"\.to_string\(\)", text, flags=re.S)
+        if not m:
+            die("From<LuaLongBracket> placeholder markers not found")
+        return dict(start=unescape(m.group(1)), stop=unescape(m.group(2)), nesting=False, line_start=False, kind="luaLongBracket")
+    m = re.match(r'MultiLineComment::new\(\s*"((?:[^"\\]|\\.)*)"\s*,\s*"((?:[^"\\]|\\.)*)"\s*\)(.*)$', item, flags=re.S)
+    if m:
+        chain = re.sub(r"\s+", "", m.group(3))
+        d = dict(start=unescape(m.group(1)), stop=unescape(m.group(2)), nesting=False, line_start=False, kind="static")
+        while chain:
+            if chain.startswith(".with_nesting()"):
+                d["nesting"] = True
+                chain = chain[len(".with_nesting()"):]
+            elif chain.startswith(".at_line_start()"):
+                d["line_start"] = True
+                chain = chain[len(".at_line_start()"):]
+            else:
+                die(f"unknown MultiLineComment builder call: {chain}")
+        return d
+    m = re.fullmatch(r'\(\s*"((?:[^"\\]|\\.)*)"\s*,\s*"((?:[^"\\]|\\.)*)"\s*\)', item, flags=re.S)
+    if m:
+        return dict(start=unescape(m.group(1)), stop=unescape(m.group(2)), nesting=False, line_start=False, kind="static")
+    die(f"unrecognised multi-line comment item: {item[:80]}")
+
+
+def vec_items(expr):
+    expr = expr.strip()
+    if not expr.startswith("vec!["):
+        die(f"expected vec![..], got {expr[:60]}")
+    inner = expr[len("vec!["):matching(expr, len("vec!"), "[", "]") - 1]
+    return split_top(inner)
+
+
+def gen_languages_table():
     """`impl Default for LanguageRegistry`: the built-in language table."""
     text = src("src/language/registry.rs")
     m = re.search(r"impl\s+Default\s+for\s+LanguageRegistry", text)
@@ -190,34 +234,49 @@ def gen_languages():
     body_start = text.index("{", m.end())
     body = text[body_start:matching(text, body_start, "{", "}")]
     langs = []
+    n_register = len(re.findall(r"registry\.register\(", body))
     for m in re.finditer(r"registry\.register\(\s*Language::new\(", body):
         start = m.end() - 1
         args = body[start + 1:matching(body, start, "(", ")") - 1]
-        # method chain after Language::new(...)
-        after = body[matching(body, start, "(", ")"):]
-        chain_end = after.index(");") if ");" in after else len(after)
-        # the register( call closes at the first top-level ')' — find via matching on register(
-        reg_start = body.rfind("register(", 0, m.end()) + len("register")
-        reg = body[reg_start:matching(body, reg_start, "(", ")")]
         parts = split_top(args)
-        if len(parts) != 4:
+        if len(parts) != 3:
             die(f"Language::new with {len(parts)} arguments: {args[:80]}")
         name = rust_string_literals(parts[0])[0]
-        exts = rust_string_literals(parts[1])
-        singles = rust_string_literals(parts[2])
-        multi_inner = parts[3]
-        pairs = re.findall(r'\(\s*"((?:[^"\\]|\\.)*)"\s*,\s*"((?:[^"\\]|\\.)*)"\s*\)', multi_inner)
-        multis = [(unescape(a), unescape(b)) for a, b in pairs]
-        chain = reg[len("(Language::new(") + len(args) + 1:]
-        nesting = ".with_nesting()" in chain or "with_nesting(true)" in chain
-        kinds = re.findall(r"MultiLineKind::(\w+)", chain)
-        track_sq = not (".without_single_quote_strings()" in chain or "with_single_quote_tracking(false)" in chain)
-        line_start = re.findall(r'with_line_start_multi\w*\(\s*(?:vec!)?\[?(.*?)\]?\s*\)', chain, flags=re.S)
-        langs.append(dict(name=name, exts=exts, singles=singles, multis=multis, nesting=nesting,
-                          chain=chain.strip(), kinds=kinds, track_sq=track_sq, line_start=line_start))
-    if not langs:
-        die("no registry.register(Language::new(...)) calls found")
+        exts = [rust_string_literals(x)[0] for x in vec_items(parts[1])]
+        syn = parts[2].strip()
+        m2 = re.match(r"CommentSyntax::(new|with_multi_line)\(", syn)
+        if not m2:
+            die(f"unrecognised comment syntax constructor: {syn[:60]}")
+        inner = syn[m2.end():matching(syn, m2.end() - 1, "(", ")") - 1]
+        sparts = split_top(inner)
+        if len(sparts) != 2:
+            die(f"CommentSyntax constructor with {len(sparts)} arguments")
+        singles = [rust_string_literals(x)[0] for x in vec_items(sparts[0])]
+        multis = [parse_multi_item(x) for x in vec_items(sparts[1])]
+        langs.append(dict(name=name, exts=exts, singles=singles, multis=multis))
+    if not langs or len(langs) != n_register:
+        die(f"parsed {len(langs)} of {n_register} registry.register calls")
     return langs
+
+
+def gen_languages():
+    langs = gen_languages_table()
+    out = ["import SlocModel.Counter.Syntax",
+           "/-! GENERATED by tools/extract.py from /repo/src/language/registry.rs — do not edit. -/",
+           "namespace SlocModel.Generated", "open SlocModel.Counter", ""]
+    out.append("def builtins : List Language := [")
+    rows = []
+    for l in langs:
+        ms = ",\n        ".join(
+            "{ start := %s, stop := %s, nesting := %s, atLineStart := %s, kind := .%s }" % (
+                chars(m["start"]), chars(m["stop"]), str(m["nesting"]).lower(), str(m["line_start"]).lower(), m["kind"])
+            for m in l["multis"])
+        rows.append("  { name := %s,\n    exts := [%s],\n    syn := {\n      single := [%s],\n      multi := [%s] } }" % (
+            chars(l["name"]), ", ".join(chars(e) for e in l["exts"]), ", ".join(chars(x) for x in l["singles"]), ms))
+    out.append(",\n".join(rows))
+    out.append("]")
+    out += ["", "end SlocModel.Generated", ""]
+    return "\n".join(out)
 
 
 def write_if_changed(path, content):
@@ -235,12 +294,8 @@ def write_if_changed(path, content):
 def main():
     changed = write_if_changed(os.path.join(OUT, "Consts.lean"), gen_consts())
     print(f"Generated/Consts.lean {'rewritten' if changed else 'unchanged'}")
-    try:
-        import extract_langs
-        changed = write_if_changed(os.path.join(OUT, "Languages.lean"), extract_langs.render(src, die, chars))
-        print(f"Generated/Languages.lean {'rewritten' if changed else 'unchanged'}")
-    except ImportError:
-        pass
+    changed = write_if_changed(os.path.join(OUT, "Languages.lean"), gen_languages())
+    print(f"Generated/Languages.lean {'rewritten' if changed else 'unchanged'}")
 
 
 if __name__ == "__main__":
